@@ -71,12 +71,37 @@ pub fn gen_module(cs: &mut Cs) -> dr::Module {
     m
 }
 
+/// every header field is public: half of the headers carry other values than `ModuleHeader::new`
+/// puts there - the byte-swapped magic number, 0, arbitrary words; any version word; the generator
+/// word of each registered tool; a non-zero reserved word. Assembly emits the five fields as they are.
+fn vary_header(cs: &mut Cs, h: &mut dr::ModuleHeader) {
+    if cs.bool() {
+        return;
+    }
+    if cs.bool() {
+        h.magic_number = [0x0302_2307u32, 0, 0xffff_ffff, 0x0723_0203, 0x0723_0000][cs.below(5)];
+        if cs.below(4) == 0 {
+            h.magic_number = cs.u32();
+        }
+    }
+    if cs.bool() {
+        h.version = [0u32, 0x0001_0000, 0x0001_0600, 0x0100_0000, 0x00ff_ff00, 0xffff_ffff][cs.below(6)];
+    }
+    if cs.bool() {
+        h.generator = ((cs.below(49) as u32) << 16) | [0u32, 1, 0xffff][cs.below(3)];
+    }
+    if cs.below(4) == 0 {
+        h.reserved_word = cs.lit32();
+    }
+}
+
 fn gen_module_inner(cs: &mut Cs) -> dr::Module {
     let mut m = dr::Module::new();
     let mut marker = 1000;
     if cs.bool() {
         let mut h = dr::ModuleHeader::new(cs.lit32());
         h.set_version(1, cs.below(7) as u8);
+        vary_header(cs, &mut h);
         m.header = Some(h);
     }
     m.capabilities = vecn(cs, &mut marker);
